@@ -13,7 +13,7 @@ def splitBars (ws : List String) : List (List String) :=
 @[inline] def hadd (h : UInt64) (v : Int) : UInt64 := h * 1099511628211 + v.toNat.toUInt64
 def h0 : UInt64 := 1469598103934665603
 
-def modelled (sp : String) : Bool := sp == "hsv" || sp == "hsl" || sp == "ycbcr601" || sp == "cmyka"
+def modelled (sp : String) : Bool := sp == "hsv" || sp == "hsl" || sp == "ycbcr601" || sp == "ycbcr709" || sp == "cmyka"
 
 /-- tolerance of the round trip in 8-bit levels: exact for hsv, hsl, xyz; one level for lab and cmyka; three for ycbcr -/
 def tol (sp : String) : Nat :=
@@ -27,6 +27,8 @@ def viaSpace (sp : String) (r g b : Int) : List Int × List Int :=
     let (h, s, l) := rgbToHsl r g b; let (x, y, z) := hslToRgb h s l; ([bitsOf h, bitsOf s, bitsOf l], [x, y, z])
   else if sp == "ycbcr601" then
     let (y, cb, cr) := rgbToYcbcr601 r g b; let (x, y2, z) := ycbcr601ToRgb y cb cr; ([y, cb, cr], [x, y2, z])
+  else if sp == "ycbcr709" then
+    let (y, cb, cr) := rgbToYcbcr709 r g b; let (x, y2, z) := ycbcr709ToRgb y cb cr; ([y, cb, cr], [x, y2, z])
   else
     let (c, m, y, k) := rgbToCmyk8 r g b; ([c, m, y, k, 255], cmykaToRgba8 c m y k 255)
 
